@@ -147,12 +147,47 @@ fn full_checks(bytes: &[u8], hl: usize, m: i128) -> CaseResult {
     Ok(())
 }
 
+/// The same integer item in the middle of a buffer: the type report and the accessors may not depend on what precedes
+/// the item (bytes equal to its head, a container head, a string) or on how the decoder got there.
+fn in_context(neg: bool, arg: u64, w: W) -> CaseResult {
+    let enc = encode(neg, arg, w);
+    let m: i128 = if neg { -1 - arg as i128 } else { arg as i128 };
+    let head = enc[0];
+    let prefixes: [&[u8]; 6] = [&[head], &[head, head], &[0x82], &[0x61, head], &[0x18, head], &[0xff]];
+    for (k, pre) in prefixes.iter().enumerate() {
+        // (a prefix that is itself a head wider than one byte would swallow the item: only complete items / single bytes)
+        let pre: Vec<u8> = if k < 2 && (head & 0x1f) >= 24 { let mut v = Vec::new(); for _ in 0 .. k + 1 { v.extend_from_slice(&enc) } v } else { pre.to_vec() };
+        let mut buf = pre.clone();
+        buf.extend_from_slice(&enc);
+        buf.extend_from_slice(&[0x01, 0xff]);
+        let start = pre.len();
+        let mut d = Decoder::new(&buf);
+        d.set_position(start);
+        let t = match d.datatype() { Ok(t) => t, Err(e) => fail!("datatype-error", "datatype() at offset {} of {} failed: {}", start, short_hex(&buf), e) };
+        let ok = match t {
+            Type::U8 => d.u8().is_ok(), Type::U16 => d.u16().is_ok(), Type::U32 => d.u32().is_ok(), Type::U64 => d.u64().is_ok(),
+            Type::I8 => d.i8().is_ok(), Type::I16 => d.i16().is_ok(), Type::I32 => d.i32().is_ok(), Type::I64 => d.i64().is_ok(),
+            Type::Int => d.int().is_ok(),
+            other => fail!("datatype-not-integer", "datatype() of the integer item at offset {} of {} is {:?}", start, short_hex(&buf), other)
+        };
+        ensure!(ok, "datatype-accessor-rejects", "datatype() at offset {} of {} (value {}) is {:?} but that accessor rejects the item", start, short_hex(&buf), m, t);
+        ensure!(d.position() == start + enc.len(), "position", "the accessor named by datatype() moved from {} to {} over a {}-byte item in {}", start, d.position(), enc.len(), short_hex(&buf));
+        // the report at offset 0 of the item alone is the same
+        let alone = Decoder::new(&enc).datatype().ok();
+        ensure!(alone == Some(t), "datatype-depends-on-context", "datatype() of {} is {:?} alone but {:?} at offset {} of {}", short_hex(&enc), alone, t, start, short_hex(&buf));
+        let mut d = Decoder::new(&buf);
+        d.set_position(start);
+        match d.int() { Ok(x) => ensure!(i128::from(x) == m, "wrong-value", "Decoder::int at offset {} of {} gave {}", start, short_hex(&buf), i128::from(x)), Err(e) => fail!("rejected-representable", "Decoder::int at offset {} of {}: {}", start, short_hex(&buf), e) }
+    }
+    Ok(())
+}
+
 fn one(neg: bool, arg: u64, w: W, st: &mut Stats, full: bool) -> Result<bool, vcore::Fail> {
     let mut bytes = encode(neg, arg, w);
     let hl = bytes.len();
     bytes.extend_from_slice(&[0x01, 0xff]); // followed by other bytes
     let m: i128 = if neg { -1 - arg as i128 } else { arg as i128 };
-    if full { full_checks(&bytes, hl, m) } else { core_checks(&bytes, hl, m) }?;
+    if full { full_checks(&bytes, hl, m)?; in_context(neg, arg, w) } else { core_checks(&bytes, hl, m) }?;
     let near_pow2 = arg >= 125 && { let a = arg as u128; (0 ..= 64u32).any(|k| { let p = 1u128 << k; a + 3 >= p && a <= p + 3 }) };
     let nontrivial = near_pow2 || w != W::min_for(arg);
     st.class(match (neg, w) { (false, W::Imm) => "pos/imm", (false, W::W1) => "pos/1", (false, W::W2) => "pos/2", (false, W::W4) => "pos/4", (false, W::W8) => "pos/8",
